@@ -26,7 +26,7 @@ def run(tier, corrupt=False):
     v = Verdict(PROP, tier)
     types = library()
     with scratch("c15-") as tmp:
-        progs = full_corpus(tmp, tier, n_generated=(60 if tier == "quick" else 600))
+        progs = full_corpus(tmp, tier, n_generated=(60 if tier == "quick" else 200))      # (600 generated programs x 9 fault positions reached 55 GB)
         interesting = [p for p in progs if any(k in json.dumps(p["code"]) for k in ('"chunked"', '"switch"', "Named", "Coords", "Tail", "Item", "HDummyAfter", "HBlob"))]
         # quick: every hand-written program, every other one of the generated ones (the amount of work must not depend on the seed)
         if tier == "thorough":
@@ -41,7 +41,7 @@ def run(tier, corrupt=False):
             for q in byname.values():
                 if q["kind"] == "struct" and q not in sel and f'"{q["name"]}' in json.dumps(p["code"]):
                     sel.append(q)
-        nf = 5 if tier == "quick" else 8
+        nf = 5 if tier == "quick" else 6
         from .c02 import merge_stats, program_groups
         all_sel = sel
         groups = program_groups(all_sel, tier)          # thorough: judged group by group (memory)
